@@ -638,7 +638,7 @@ theorem sign_shape (f0 f : Fields) (sn kid : Str) (mk : JVal → Str) (h : sign 
       f.signatures = setSig f0.signatures kid (mk (signingObject cv0 f0.destination f0.method sn f0.uri)) ∧
       ((f0.content = none ∨ f0.content = some []) → f.content = none) ∧
       (∀ raw, f0.content = some raw → raw ≠ [] → ∃ c, canonical raw = .ok c ∧ f.content = some c) ∧
-      contentStrict f0.content = true := by
+      contentSignStrict f0.content = true := by
   unfold sign at h
   split at h
   · simp at h
@@ -658,8 +658,8 @@ theorem sign_shape (f0 f : Fields) (sn kid : Str) (mk : JVal → Str) (h : sign 
       | none => simp [hcv] at h
       | some cv0 =>
         simp only [hcv] at h
-        have hstrict : contentStrict f0.content = true := by
-          cases hb : contentStrict f0.content with
+        have hstrict : contentSignStrict f0.content = true := by
+          cases hb : contentSignStrict f0.content with
           | true => rfl
           | false => simp [hb] at h
         simp only [hstrict, Bool.not_true, Bool.false_eq_true, ↓reduceIte] at h
